@@ -496,7 +496,8 @@ def run(ctx):
 	ctx.assume("not generated: zero-length sequence items, LSB-first sets that do not fill their octets, values off the offset/multiplier lattice")
 	r = ctx.rng("c16")
 	for i in range(ctx.scale(3000, 200000)):
-		check_definition(ctx, r, i)
+		with common.case_watchdog(ctx, "definition", {"definition_index": i}):
+			check_definition(ctx, r, i)
 		if ctx.too_many() or ctx.time_left() < 0:
 			break
 	ctx.require("definitions", 200)
